@@ -22,6 +22,7 @@ mapped onto itself by the 48 octahedral operations):
                         of the atom it came from;  the l+1 steps read the geometry only through (grid point - its atom) and are the transposes of each other
 """
 import itertools
+import json
 import os
 import sys
 
@@ -581,11 +582,16 @@ def unit_sph_harm(lmax):
         nfc = NF()
         x, y, z = tm.var("x"), tm.var("y"), tm.var("z")
         seen = {}
+        from contracts import outcover as coverage
+        i0 = tm.var("i_target", "I")
+        n_arg = tm.lift(args["n"])
+        cov_cache = {}
         for e in ws:
-            if len(e.qvars) != 1:
+            loopq = [q for q in e.qvars if not coverage._is_tid(q[0])]
+            if len(loopq) != 1:
                 ctx.undecided("%s write structure" % tag, "write outside the point loop", fq)
                 return
-            i = e.qvars[0][0]
+            i = loopq[0][0]
             lm = nfc.rf_to_term(nfc.nf(e.idx - nlm * i))
             if lm.op != "c" or e.op != "=":
                 ctx.holds("%s layout: point i writes res[nlm*i + lm]" % tag, False, tm.show(e.idx, 60), fq)
@@ -600,6 +606,11 @@ def unit_sph_harm(lmax):
                 ctx.holds("%s res[%d] depends on the point's own coordinates only" % (tag, lm), False, tm.show(left[0], 60), fq)
                 continue
             ctx.equal("%s res[nlm*i + %d] = Y_{%d,%d}(r_i)  (orthonormal real harmonic, index l^2 + l + m)" % (tag, lm, l, m), [], val, RSH.real_sph_harm(tm, l, m, x, y, z), fq, replay=replay_sph(lmax))
+            # every point 0 <= i < n receives this harmonic (the events of one point loop share ranges and guards: decided once per loop structure)
+            key = (tuple((q[0].id, tm.lift(q[1]).id, tm.lift(q[2]).id) for q in e.qvars), tuple(tm.lift(g).id for g in e.guards))
+            if key not in cov_cache:
+                cov_cache[key] = coverage.record(ctx, "%s every point 0 <= i < n is written: res[nlm*i + lm] for the stores of loop structure #%d (first lm = %d)" % (tag, len(cov_cache), lm),
+                                                 [e], [(i0, 0, n_arg)], nlm * i0 + lm, s.hyps, fq, replay=replay_sph_cover(lmax))
             if lm == 3:
                 ctx.canary("%s canary (x and y harmonics swapped)" % tag, [], val, RSH.real_sph_harm(tm, 1, -1, x, y, z))
         ctx.holds("%s every harmonic 0 <= lm < nlm is written exactly once per point" % tag, sorted(seen) == list(range(nlm)) and set(seen.values()) == {1}, "written: %s" % sorted(seen)[:8], fq)
@@ -631,6 +642,34 @@ def replay_sph(lmax):
     return replay
 
 
+def replay_sph_cover(lmax):
+    """Replay of a coverage counterexample: n points under OMP_NUM_THREADS = T in a fresh process (the team size is fixed at start-up)."""
+    def replay(wit):
+        import subprocess
+        import sys as _sys
+        from pyvc import native
+        T = int((wit or {}).get("omp_team_size", 1))
+        n = None
+        for k, v in (wit or {}).items():
+            if str(k) == "n":
+                n = int(v)
+        n = n if n and 0 < n < 10 ** 6 else 7
+        nlm = (lmax + 1) ** 2
+        code = ("import ctypes, numpy as np, json\n"
+                "lib = ctypes.CDLL(%r)\n"
+                "n, nlm = %d, %d\n"
+                "r = np.random.RandomState(3).randn(n, 3); r /= np.linalg.norm(r, axis=1)[:, None]\n"
+                "out = np.zeros((n, nlm))\n"
+                "lib.recursive_sph_harm_vec(ctypes.c_int(nlm), ctypes.c_int(n), r.ctypes.data_as(ctypes.c_void_p), out.ctypes.data_as(ctypes.c_void_p))\n"
+                "print(json.dumps([int(j) for j in range(n) if abs(out[j, 0]) < 1e-12]))\n") % (native.build_libs() + "/libmcider.so", n, nlm)
+        cp = subprocess.run([_sys.executable, "-c", code], env=dict(os.environ, OMP_NUM_THREADS=str(T)), capture_output=True, text=True, timeout=120)
+        if cp.returncode != 0:
+            return {"reproduced": None, "error": cp.stderr[-300:]}
+        missing = json.loads(cp.stdout.strip().splitlines()[-1])
+        return {"reproduced": bool(missing), "n": n, "OMP_NUM_THREADS": T, "points_whose_Y00_was_never_written": missing[:10]}
+    return replay
+
+
 def unit_sph_deriv(lmax):
     def run(ctx):
         import math
@@ -652,19 +691,24 @@ def unit_sph_deriv(lmax):
         nfc = NF()
         x, y, z = tm.var("x"), tm.var("y"), tm.var("z")
         final, res = {}, {}
+        from contracts import outcover as coverage
+        structures = {}
         for e in s.events:
             if e.kind != "w" or e.arr.name not in ("dres", "res"):
                 continue
-            if len(e.qvars) != 1:
+            loopq = [q for q in e.qvars if not coverage._is_tid(q[0])]
+            if len(loopq) != 1:
                 ctx.undecided("%s write structure" % tag, "write outside the point loop", fq)
                 return
-            i = e.qvars[0][0]
+            i = loopq[0][0]
             stride = 3 * nlm if e.arr.name == "dres" else nlm
             k = nfc.rf_to_term(nfc.nf(e.idx - stride * i))
             if k.op != "c":
                 ctx.holds("%s layout: point i writes %s[%d*i + k]" % (tag, e.arr.name, stride), False, tm.show(e.idx, 60), fq)
                 return
             k = int(k.args[0])
+            key = (tuple((q[0].id, tm.lift(q[1]).id, tm.lift(q[2]).id) for q in e.qvars), tuple(tm.lift(g).id for g in e.guards))
+            structures.setdefault(key, (e, stride, k))
             v = tm.substitute(tm.lift(e.val), {tm.mk_fn("rd:r", 3 * i + j): w for j, w in enumerate((x, y, z))})
             tgt = final if e.arr.name == "dres" else res
             if e.op == "=":
@@ -675,6 +719,10 @@ def unit_sph_deriv(lmax):
                 ctx.undecided("%s store kinds" % tag, "%s on an unwritten entry" % e.op, fq)
                 return
         ctx.holds("%s all 3*nlm gradient entries and nlm values are written for every point" % tag, sorted(final) == list(range(3 * nlm)) and sorted(res) == list(range(nlm)), "", fq)
+        i0 = tm.var("i_target", "I")
+        for j, (e, stride, k) in enumerate(structures.values()):
+            coverage.record(ctx, "%s every point 0 <= i < n is written: stores of loop structure #%d (first: %s[%d*i + %d])" % (tag, j, e.arr.name, stride, k),
+                            [e], [(i0, 0, tm.lift(args["n"]))], stride * i0 + k, s.hyps, fq)
         for lm, v in sorted(res.items()):
             l = math.isqrt(lm)
             ctx.equal("%s res[%d] = Y_{%d,%d}" % (tag, lm, l, lm - l * l - l), [], v, RSH.real_sph_harm(tm, l, lm - l * l - l, x, y, z), fq)
